@@ -23,7 +23,7 @@ structure LF (l : Loc) : Prop where
   aw : afterWait l.pc = true → l.ret = .plan
   a6 : l.pc = .a6c → (⟨l.m, l.key, modeOf l.write, true⟩ : Hold) ∈ l.held
   nk : (l.pc = .n1 ∨ l.pc = .n2 ∨ l.pc = .n3) → (⟨l.m, l.key, .w, true⟩ : Hold) ∈ l.held
-  dk : (l.pc = .d1 ∨ l.pc = .d2) → ∀ h ∈ l.held, h.key = l.key → h.mode = .w
+  dk : (l.pc = .d1 ∨ l.pc = .d2) → (∀ h ∈ l.held, h.key = l.key → h.mode = .w) ∧ holdsName l l.key = true
 
 theorem sortedKeys_cons {a b : Key} {l : List Key} (h : sortedKeys (a :: b :: l) = true) :
     a < b ∧ sortedKeys (b :: l) = true := by
